@@ -226,7 +226,7 @@ func driveAPI(c *ctx) {
 	if len(files) == 0 {
 		fatal("api: no schedules under VERIF_SKEL_DIR=" + dir)
 	}
-	small := curvePointsWithSmallX(rng, 6)
+	small := curvePointsWithSmallX(rng, 10)
 	for fi, fn := range files {
 		f, err := os.Open(fn)
 		if err != nil {
